@@ -220,7 +220,7 @@ fn run(ctx: &mut Ctx) {
         }
     }
     // ---------------- (a3) sparse images: everything zero (or all-ones) except one or two fields
-    ctx.bound("sparse_images", "every kind: the first sample image with every freely variable body byte set to 00 (and to FF), then every single 32-bit word and every adjacent pair of words restored to the sample's (marker) value: a field is special-cased only when its neighbours are zero / all-ones");
+    ctx.bound("sparse_images", "every kind: the first sample image with every freely variable body byte set to 00 (and to FF), then every single 32-bit word and every adjacent pair of words (VBE: none), and every single byte, every aligned half-word and every pair of nearby half-words of the first 64 body bytes, restored to the sample's (marker) value: a field is special-cased only when its neighbours are zero / all-ones");
     for kind in 0..=21u32 {
         let img = variants(kind).into_iter().next().unwrap();
         for fillv in [0x00u8, 0xFF] {
@@ -243,14 +243,32 @@ fn run(ctx: &mut Ctx) {
                     }
                 }
             }
-            for case in cases {
+            // below word granularity (16-bit and 8-bit fields): every single byte, every aligned half-word, and every
+            // pair of half-words, of the first 64 body bytes (and of the VBE tag's own fields + the start of its blocks)
+            let mut subcases: Vec<Vec<(usize, usize)>> = vec![];
+            let top = img.len().min(72);
+            for o in 8..top {
+                subcases.push(vec![(o, 1)]);
+            }
+            let halves: Vec<usize> = (8..top.saturating_sub(1)).step_by(2).collect();
+            for (i, &h) in halves.iter().enumerate() {
+                subcases.push(vec![(h, 2)]);
+                for &h2 in halves.iter().skip(i + 1).take(3) {
+                    subcases.push(vec![(h, 2), (h2, 2)]);
+                }
+            }
+            let mut all: Vec<Vec<(usize, usize)>> = cases.iter().map(|c| c.iter().map(|&w| (w, 4usize)).collect()).collect();
+            all.extend(subcases);
+            for case in all {
                 let mut t = base.clone();
-                for &w in &case {
-                    t[w..w + 4].copy_from_slice(&img[w..w + 4]);
+                for &(w, n) in &case {
+                    if legal(kind, &img, w, img[w]) || n == 4 {
+                        t[w..w + n].copy_from_slice(&img[w..w + n]);
+                    }
                 }
                 let filler = bi::sample(other_kind(kind), 9, 0);
                 let region = bi::region(&[filler, t, bi::end_tag()], &bi::marker_pad);
-                let describe = || J::obj().set("part", "sparse_images").set("kind", bi::kind_name(kind)).set("fill", fillv).set("words_kept", J::Arr(case.iter().map(|w| J::from(*w)).collect())).set("region", J::hex(&region[..region.len().min(160)]));
+                let describe = || J::obj().set("part", "sparse_images").set("kind", bi::kind_name(kind)).set("fill", fillv).set("fields_kept_offset_width", J::Arr(case.iter().map(|w| J::from(format!("{}+{}", w.0, w.1))).collect())).set("region", J::hex(&region[..region.len().min(160)]));
                 ctx.leaf(describe, |ctx| {
                     ctx.state(hash::hash_bytes(&region));
                     ctx.nontrivial();
@@ -423,6 +441,39 @@ fn run(ctx: &mut Ctx) {
                     check_getter(ctx, &deep_arena, &region, g, want, "deep_regions");
                 }
             });
+        }
+    }
+    // ---------------- (b3') far tags: one huge tag in front, every kind far behind the start of the region
+    ctx.bound("far_tags", "one custom tag (a module tag in a second variant) of D bytes in front of one instance of every kind, D in {65528, 65536, 65544, 524280, 524288, 524296, 1 MiB, 1 MiB + 8, 16 MiB}; all 22 getters");
+    {
+        let far_arena = Arena::new((17 << 20) / arena::PAGE);
+        for d in [65528usize, 65536, 65544, 524280, 524288, 524296, 1 << 20, (1 << 20) + 8, 16 << 20] {
+            for modules in [false, true] {
+                let mut big = vec![0x61u8; d];
+                wr32(&mut big, 0, if modules { 3 } else { 0x1337 });
+                wr32(&mut big, 4, d as u32);
+                big[d - 1] = 0;
+                let mut tags: Vec<Vec<u8>> = vec![big];
+                for k in 1..=21u32 {
+                    if k != bi::EFI_BS {
+                        tags.push(bi::sample(k, 1, 1));
+                    }
+                }
+                tags.push(bi::end_tag());
+                let region = bi::region(&tags, &bi::zero_pad);
+                let describe = || J::obj().set("part", "far_tags").set("bytes_in_front", d).set("front_kind", if modules { "module" } else { "custom" }).set("region_len", region.len());
+                ctx.leaf(describe, |ctx| {
+                    ctx.state(hash::hash_bytes(&region[d..]) ^ d as u64);
+                    ctx.nontrivial();
+                    for g in 1..=21u32 {
+                        if modules && g == bi::MODULE {
+                            continue; // the first module is the huge one: its text is compared in large_counts
+                        }
+                        let want = expected_for(&region, g);
+                        check_getter(ctx, &far_arena, &region, g, want, "far_tags");
+                    }
+                });
+            }
         }
     }
     // ---------------- (b4) a realistic boot information (values as GRUB on a PC reports them), complete, with each
